@@ -16,6 +16,11 @@ reduces value axes only (seed in {unset, 0}; n_samples in {1, 13} for sampling a
 ones).  A subset (entry compute_doe, layout asym, mixed types - integer in dimension 1) is recomputed in fresh
 interpreter processes started with another PYTHONHASHSEED.
 
+History axis (see ``check_history``): every algorithm x {first DOE | normalize_vect | nothing (control)} -> ONE bound
+edit (tighten/loosen ub, raise/lower lb, infinite bound made finite) on the SAME DesignSpace -> DOE through both entry
+points, on an all-float space and on an integer/mixed space whose integer-normalization switch is already on; the
+second design is held to the bounds set by the harness and to the design of a freshly built equal space.
+
 Oracles (DESIGN.md section 5, C14) - all comparisons are exact (``==`` on float64, ``tobytes``):
 
   shape                 2-D array with one column per design-space component, finite values
@@ -178,6 +183,7 @@ def algo_info(algo: str) -> dict:
     return {
         "kind": kind,
         "count": count,
+        "min_dim": int(lib.ALGORITHM_INFOS[algo].minimum_dimension),
         "seed_setting": seed_key,
         "has_n_samples": "n_samples" in fields,
         "bounds_held": algo not in NOT_DOMAIN_FILLING and kind != "unclassified",
@@ -220,19 +226,24 @@ def bounds_of(d: int, layout: str, types: str, table: int):
     return np.array(lb), np.array(ub), np.array(ints, dtype=bool)
 
 
-def make_space(d: int, layout: str, types: str, table: int, int_norm: bool = False):
+def build_space(d: int, lb, ub, ints, int_norm: bool = False):
+    """A new DesignSpace with the variables of dimension ``d`` and the given bounds (which may be infinite)."""
     from gemseo.algos.design_space import DesignSpace
 
-    lb, ub, ints = bounds_of(d, layout, types, table)
     ds = DesignSpace()
     off = 0
     for name, size in VARS[d]:
         sl = slice(off, off + size)
-        ds.add_variable(name, size, "integer" if ints[off] else "float", lb[sl].copy(), ub[sl].copy())
+        ds.add_variable(name, size, "integer" if ints[off] else "float", np.array(lb[sl], dtype=float), np.array(ub[sl], dtype=float))
         off += size
     if int_norm:
         ds.enable_integer_variables_normalization = True
-    return ds, lb, ub, ints
+    return ds
+
+
+def make_space(d: int, layout: str, types: str, table: int, int_norm: bool = False):
+    lb, ub, ints = bounds_of(d, layout, types, table)
+    return build_space(d, lb, ub, ints, int_norm), lb, ub, ints
 
 
 # ------------------------------------------------------------------------------------------------------------------
@@ -624,6 +635,8 @@ def signature(inv: str, case: dict) -> dict:
 
 
 def run_case(case: dict, tally) -> None:
+    if case.get("kind") == "history":
+        return run_history(case, tally)
     res = check_case(case, SCRATCH)
     key = case_key(case)
     algo = case["algo"]
@@ -652,6 +665,218 @@ def run_case(case: dict, tally) -> None:
             light,
             f"{inv}: {algo} size={case['size']} d={case['d']} layout={case['layout']} types={case['types']} seed={case['seed']} entry={case['entry']} (table {case['table']})\n"
             f"settings={res['obs'].get('settings')}\n{msg}",
+        )
+
+
+# ------------------------------------------------------------------------------------------------------------------
+# history axis: DOE (or a normalization) -> ONE bound edit on the SAME design space -> DOE again
+# ------------------------------------------------------------------------------------------------------------------
+# The caches of a DesignSpace (bound vectors, normalization factors, normalized components) are filled by the first
+# design and must be invalidated by a bound edit.  The DOE library toggles enable_integer_variables_normalization
+# around a sampling, which re-invalidates them as a side effect - but only for a space whose switch is off; hence the
+# two spaces: all-float, and integer/mixed with the switch already enabled by the user.  Each edit is ONE call of
+# set_lower_bound / set_upper_bound on one variable (a second invalidating call could mask a missing invalidation).
+# Oracles of the second design, against the bounds set by the harness (never read from the cached bound vectors):
+#   history:getters            get_lower_bound(name) / get_upper_bound(name) return what was set
+#   history:refused            the edited space refuses a DOE that a freshly built equal space accepts (or conversely)
+#   inside-bounds(-rounding) / integer-components   as for a single design
+#   history:image              samples == round_int(u * (ub' - lb') + lb') with the unit samples of the same space
+#   history:same-as-fresh-space  bitwise the design computed on a freshly built space with the edited bounds
+#                              (same algorithm, settings, seed => same samples; the two spaces are equal)
+#   switch-restored            as for a single design
+# The order (edit, DOE) on a space that never normalized anything is the control.
+H_SPACES = ["float", "int-switch-on"]
+H_EDITS = ["tighten-ub", "loosen-ub", "raise-lb", "lower-lb", "inf-ub-made-finite", "inf-lb-made-finite"]
+H_ORDERS = ["doe,edit,doe", "normalize,edit,doe", "execute,edit,doe", "edit,doe"]
+H_SIZE = {
+    **{a: "n5" for a in SAMPLING},
+    "PoissonDisk": "n5", "DiagonalDOE": "n5", "OT_FULLFACT": "n5", "PYDOE_FULLFACT": "n5", "OT_AXIAL": "lev(.5,1)",
+    "OT_FACTORIAL": "lev(.5,1)", "OT_COMPOSITE": "lev(.5,1)", "OT_SOBOL_INDICES": "n13", "MorrisDOE": "n13", "OATDOE": "p.5",
+    "CustomDOE": "n5", "PYDOE_BBDESIGN": "default", "PYDOE_CCDESIGN": "faced", "PYDOE_FF2N": "default", "PYDOE_PBDESIGN": "default",
+}  # fmt: skip
+
+
+def history_bounds(case: dict):
+    """(initial lb, ub), (edited lb, ub), integer mask, slice and name of the edited variable."""
+    d, table = case["d"], case["table"]
+    types = "float" if case["space"] == "float" else ("integer" if d == 1 else "mixed")
+    lb, ub, ints = bounds_of(d, "asym", types, table)
+    k = 0 if case["var"] == "first" else len(VARS[d]) - 1
+    off = sum(size for _, size in VARS[d][:k])
+    name, size = VARS[d][k]
+    sl = slice(off, off + size)
+    lb0, ub0, lb1, ub1 = lb.copy(), ub.copy(), lb.copy(), ub.copy()
+    w = ub[sl] - lb[sl]
+    integer = bool(ints[off])
+    edit = case["edit"]
+    if edit == "tighten-ub":
+        ub1[sl] = lb[sl] + (np.maximum(1.0, w // 4) if integer else w / 4)
+    elif edit == "loosen-ub":
+        ub1[sl] = ub[sl] + w
+    elif edit == "raise-lb":
+        lb1[sl] = lb[sl] + (np.maximum(1.0, w // 2) if integer else w / 2)
+    elif edit == "lower-lb":
+        lb1[sl] = lb[sl] - w
+    elif edit == "inf-ub-made-finite":
+        ub0[sl] = np.inf
+    elif edit == "inf-lb-made-finite":
+        lb0[sl] = -np.inf
+    else:
+        raise ValueError(edit)
+    return (lb0, ub0), (lb1, ub1), ints, sl, name
+
+
+def check_history(case: dict, scratch: str | None = None) -> dict:
+    algo, d, entry, order = case["algo"], case["d"], case["entry"], case["order"]
+    res = {"violations": [], "outcome": "", "obs": {}, "executed": False, "sharp": order != "edit,doe"}
+    bad = res["violations"].append
+    obs = res["obs"]
+    (lb0, ub0), (lb1, ub1), ints, sl, name = history_bounds(case)
+    pre = case["space"] == "int-switch-on"
+    ds = build_space(d, lb0, ub0, ints, int_norm=pre)
+    finite0 = (np.where(np.isfinite(lb0), lb0, ub0 - 1.0), np.where(np.isfinite(ub0), ub0, lb0 + 1.0))
+
+    # step 1 -------------------------------------------------------------------------------------------------------
+    first = order.split(",")[0]
+    if first in ("doe", "execute"):
+        s0, _ = settings_for(case, finite0[0], finite0[1], ints, scratch)
+        try:
+            call(algo, ds, s0, "compute_doe" if first == "doe" else "execute")
+            obs["first_step"] = "executed"
+        except EXPECTED_ERRORS as e:
+            obs["first_step"] = f"refused: {type(e).__name__}: {str(e)[:100]}"
+    elif first == "normalize":
+        ds.normalize_vect(finite0[0].copy())
+        obs["first_step"] = "normalize_vect"
+    # the edit: ONE call -----------------------------------------------------------------------------------------------
+    if case["edit"] in ("tighten-ub", "loosen-ub", "inf-ub-made-finite"):
+        ds.set_upper_bound(name, ub1[sl].copy())
+    else:
+        ds.set_lower_bound(name, lb1[sl].copy())
+    off, got_lb, got_ub = 0, [], []
+    for n, size in VARS[d]:
+        got_lb.append(np.asarray(ds.get_lower_bound(n), dtype=float))
+        got_ub.append(np.asarray(ds.get_upper_bound(n), dtype=float))
+    if not (np.array_equal(np.concatenate(got_lb), lb1) and np.array_equal(np.concatenate(got_ub), ub1)):
+        bad(("history:getters", f"per-variable bounds after the edit {np.concatenate(got_lb)}, {np.concatenate(got_ub)}; set {lb1}, {ub1}"))
+    obs.update(lb=lb1.tolist(), ub=ub1.tolist(), integer=ints.tolist(), initial_lb=jsonable_bounds(lb0), initial_ub=jsonable_bounds(ub0))
+
+    # step 2 on the edited space, and the same DOE on a freshly built equal space ----------------------------------------
+    settings, exp = settings_for(case, lb1, ub1, ints, scratch)
+    obs["settings"] = {k: (v if not isinstance(v, np.ndarray) else v.tolist()) for k, v in settings.items() if k != "samples"}
+    before = ds.enable_integer_variables_normalization
+    fresh_ds = build_space(d, lb1, ub1, ints, int_norm=pre)
+    # Oracle boundary: a first ``execute`` leaves its best point as the current value of the space (documented side
+    # effect), which decides the dtype of all-integer designs and is checked against the bounds by a later ``execute``.
+    # The equal fresh space carries the same current value; if the edit put it outside the bounds, refusing to execute
+    # is legitimate and the designs are compared by value.
+    current = None
+    if ds.has_current_value:
+        cur = np.asarray(ds.get_current_value())
+        if ((cur >= lb1) & (cur <= ub1)).all():
+            fresh_ds.set_current_value(cur.copy())
+            current = "copied"
+        else:
+            current = "outside"
+        obs["current_value_left_by_the_first_step"] = current
+    err = ferr = None
+    try:
+        lib, samples, unit, _ = call(algo, ds, settings, entry)
+    except EXPECTED_ERRORS as e:
+        err = f"{type(e).__name__}: {str(e)[:200]}"
+    try:
+        _, fresh, _, _ = call(algo, fresh_ds, settings, entry)
+    except EXPECTED_ERRORS as e:
+        ferr = f"{type(e).__name__}: {str(e)[:200]}"
+    if ds.enable_integer_variables_normalization != before:
+        bad(("switch-restored", f"enable_integer_variables_normalization was {before} before the second DOE and is {ds.enable_integer_variables_normalization} after it"))
+    if err or ferr:
+        if bool(err) != bool(ferr) and not (current == "outside" and err and entry == "execute"):
+            bad(("history:refused", f"edited space: {err or 'executed'}; freshly built space with the same bounds: {ferr or 'executed'}"))
+        res["outcome"] = f"history:skipped:{(err or ferr).split(':')[0]}"
+        obs["error"] = err or ferr
+        return res
+    res["executed"] = True
+    samples = np.asarray(samples)
+    if samples.ndim != 2 or samples.shape[1] != d:
+        bad(("shape", f"samples have shape {samples.shape}"))
+        res["outcome"] = "bad-shape"
+        return res
+    obs["n"] = int(samples.shape[0])
+    outside = (samples < lb1) | (samples > ub1)
+    if outside.any():
+        i, j = np.argwhere(outside)[0]
+        excess = np.maximum(lb1 - samples, samples - ub1)
+        rounding = 4 * np.finfo(float).eps * np.maximum(np.abs(lb1), np.abs(ub1))
+        gross = outside & (excess > rounding)
+        if not exp["bounds"]:
+            obs["outside_not_held"] = True
+        elif gross.any():
+            i, j = np.argwhere(gross)[0]
+            bad(("inside-bounds", f"second design: sample {i} component {j} = {samples[i, j]!r} outside the edited bounds [{lb1[j]!r}, {ub1[j]!r}] (bounds before the edit [{lb0[j]!r}, {ub0[j]!r}]); {int(gross.sum())} components outside"))
+        else:
+            bad(("inside-bounds-rounding", f"second design: sample {i} component {j} = {samples[i, j]!r} outside [{lb1[j]!r}, {ub1[j]!r}] within the rounding error of the affine map"))
+    if ints.any() and (samples[:, ints] != np.round(samples[:, ints])).any():
+        bad(("integer-components", f"integer components hold {_short(samples[:, ints])}"))
+    if entry == "compute_doe":
+        _, unit, _, _ = call(algo, ds, settings, entry, unit=True)
+    unit = np.asarray(unit)
+    if unit.shape == samples.shape:
+        formula = unit * (ub1 - lb1) + lb1
+        formula = np.where(ints, np.round(formula), formula)
+        if not np.array_equal(samples, formula):
+            bad(("history:image", f"second design {_short(samples, 3)} is not round_int(u*(ub-lb)+lb) {_short(formula, 3)} for the edited bounds {lb1}, {ub1} (before the edit {lb0}, {ub0})"))
+    else:
+        bad(("history:image", f"unit samples have shape {unit.shape}, samples {samples.shape}"))
+    if not (same(samples, fresh) or (current == "outside" and np.array_equal(samples, np.asarray(fresh)))):
+        bad(("history:same-as-fresh-space", f"second design on the edited space {_short(samples, 3)}; on a freshly built space with the same bounds {_short(np.asarray(fresh), 3)}"))
+    res["outcome"] = "history:ok" + (":first-step-refused" if str(obs.get("first_step", "")).startswith("refused") else "")
+    obs["first_samples"] = samples[:3].tolist()
+    return res
+
+
+def jsonable_bounds(a) -> list:
+    return [float(v) if np.isfinite(v) else ("inf" if v > 0 else "-inf") for v in a]
+
+
+def history_cases(ctx, table: int, infos: dict, tally):
+    """quick: every algorithm x d in {1, 2} x both spaces x 5 edits x {doe | normalize first, control} x both entries."""
+    dims = [1, 2, 3] if ctx.thorough else [1, 2]
+    edits = H_EDITS if ctx.thorough else H_EDITS[:5]
+    orders = H_ORDERS if ctx.thorough else [o for o in H_ORDERS if o != "execute,edit,doe"]
+    variables = ["last", "first"] if ctx.thorough else ["last"]
+    for algo, info in infos.items():
+        if getattr(ctx, "only", None) and ctx.only not in algo:
+            continue
+        size = H_SIZE.get(algo) or sizes_of(algo, info)[0]
+        seed = 7 if info["seed_setting"] else None
+        algo_dims = sorted({max(x, info.get("min_dim", 1)) for x in dims})
+        for c in product.full({"d": algo_dims, "space": H_SPACES, "edit": edits, "var": variables, "order": orders, "entry": ENTRIES}):
+            if c["var"] == "first" and len(VARS[c["d"]]) == 1:
+                continue
+            yield {"kind": "history", "algo": algo, **c, "size": size, "seed": seed, "table": table, "info": info, "layout": "history", "types": c["space"]}
+
+
+def run_history(case: dict, tally) -> None:
+    res = check_history(case, SCRATCH)
+    algo = case["algo"]
+    light = {k: v for k, v in case.items() if k != "info"}
+    key = ("history", algo, case["d"], case["space"], case["edit"], case["var"], case["order"], case["entry"])
+    sampled = res["executed"] and algo in ("OT_LHS", "OT_FULLFACT") and case["d"] == 2 and case["edit"] == "tighten-ub" and case["order"] == "doe,edit,doe" and case["entry"] == "compute_doe"
+    tally.case(key, nontrivial=res["executed"] and res["sharp"], outcome=res["outcome"], sample={"case": light, "observed": res["obs"]} if sampled else None)
+    tally.count("history:executed" if res["executed"] else "history:refused-by-the-library")
+    if res["executed"]:
+        tally.count(f"history-executed:{algo}")
+    seen = set()
+    for inv, msg in res["violations"]:
+        if inv in seen:
+            continue
+        seen.add(inv)
+        tally.violation(
+            {"invariant": inv, "algorithm": algo, "layout": "history"},
+            light,
+            f"{inv}: {algo} history [{case['order']}] edit={case['edit']} of the {case['var']} variable, space={case['space']} d={case['d']} size={case['size']} seed={case['seed']} entry={case['entry']} (table {case['table']})\n"
+            f"settings={res['obs'].get('settings')} first step: {res['obs'].get('first_step', '-')}\n{msg}",
         )
 
 
@@ -757,12 +982,15 @@ def run(ctx):
     tally.notes["value_table"] = table
 
     cases = list(enumerate_cases(ctx, table, infos, tally))
-    pmap(run_case, cases, tally, jobs=ctx.jobs, chunk=40, timeout=300)
+    hcases = list(history_cases(ctx, table, infos, tally))
+    pmap(run_case, cases + hcases, tally, jobs=ctx.jobs, chunk=40, timeout=300)
 
     # an algorithm whose every case was refused is a vacuous line of the product
     for a in algorithms:
         if getattr(ctx, "only", None) and ctx.only not in a:
             continue
+        if not tally.counters.get(f"history-executed:{a}"):
+            tally.violation({"invariant": "no-executable-case", "algorithm": a, "layout": "history"}, {"algo": a}, f"every history case of {a} was refused by the library: nothing was checked for it")
         if not tally.counters.get(f"executed:{a}"):
             tally.violation({"invariant": "no-executable-case", "algorithm": a, "layout": "any"}, {"algo": a}, f"every enumerated case of {a} was refused by the library: nothing was checked for it")
 
@@ -782,7 +1010,9 @@ def run(ctx):
     skipped = sum(v for k, v in tally.counters.items() if k.startswith("skipped:"))
     return {
         "level": LEVEL,
-        "rule": "full product algorithm x dimension x bound layout x types x size parameter x seed x entry point; a case is "
+        "rule": "(a) full product algorithm x dimension x bound layout x types x size parameter x seed x entry point; (b) history "
+        "product algorithm x dimension x space x first step x single bound edit x edited variable x entry point on ONE design "
+        "space object, non-trivial when the second DOE executed and a first step preceded the edit; for (a) a case is "
         "non-trivial when the library produced samples (not refused) and the layout is not the unit cube or an integer "
         "component is present (so that the affine map / rounding is not the identity); each executed case runs the DOE "
         "2 to 4 times (fresh instance; second fresh instance starting from the other value of the integer-normalization "
@@ -800,6 +1030,17 @@ def run(ctx):
             "executed": executed,
             "refused_by_the_library": skipped,
             "second_process_cases": len(pairs),
+            "history": {
+                "cases": len(hcases),
+                "executed": tally.counters.get("history:executed", 0),
+                "refused_by_the_library": tally.counters.get("history:refused-by-the-library", 0),
+                "dimensions": [1, 2, 3] if ctx.thorough else [1, 2],
+                "spaces": H_SPACES,
+                "edits": H_EDITS if ctx.thorough else H_EDITS[:5],
+                "orders": H_ORDERS if ctx.thorough else [o for o in H_ORDERS if o != "execute,edit,doe"],
+                "edited_variable": ["last", "first"] if ctx.thorough else ["last"],
+                "second_entry": ENTRIES,
+            },
         },
         "caps": {"PoissonDisk": "dimension 5 uses radius=0.25 (the default radius 0.05 costs ~28 s and several GB per call in SciPy)"},
         "assumptions": [
@@ -818,6 +1059,9 @@ def replay(case, ctx):
     if "size" not in case:
         return {"violations": [], "note": "summary record (no executable case)", "case": case}
     case["info"] = algo_info(case["algo"])
+    if case.get("kind") == "history":
+        res = check_history(case, ctx.scratch)
+        return {"case": {k: v for k, v in case.items() if k != "info"}, "outcome": res["outcome"], "observed": res["obs"], "violations": [{"invariant": i, "message": m} for i, m in res["violations"]]}
     res = check_case(case, ctx.scratch)
     out = {"case": {k: v for k, v in case.items() if k != "info"}, "outcome": res["outcome"], "observed": res["obs"], "violations": [{"invariant": i, "message": m} for i, m in res["violations"]]}
     if case.get("xproc") and res["digest"]:
